@@ -3,7 +3,7 @@ CONSTANTS
   Ident = "kitty"
   Style3 = "kitty"
   Bits = 2
-  Fams = {"Q", "T", "I"}
+  Fams = {"R", "T", "I"}
   WithBad = FALSE
   WithInv = FALSE
   Dyn = TRUE
